@@ -71,10 +71,10 @@ def tree_scopes(tier, updates=1, ro=1, fill=1, growth=True, logs=True, rnd=True)
         ]
     if rnd:
         t += [
-            S("tree", type="T8u32u16", mode="random", slots=200, cap=200, max_slots=254, keys=keys(400), histories=40, length=3000, checkpoint=25, fill=fill),
-            S("tree", type="T8u32u16", mode="random", slots=255, cap=255, keys=keys(300), histories=30, length=3000, checkpoint=25, fill=fill),
+            S("tree", type="T8u32u16", mode="random", slots=200, cap=200, max_slots=254, keys=keys(400), histories=40, length=3000, checkpoint=25, fill=fill, fresh_base=100000),
+            S("tree", type="T8u32u16", mode="random", slots=255, cap=255, keys=keys(300), histories=30, length=3000, checkpoint=25, fill=fill, fresh_base=100000),
             S("tree", type="T32u64u64", mode="random", slots=1000, cap=1000, max_slots=2000, keys=keys(3000), histories=6, length=20000, checkpoint=500, fill=0),
-            S("tree", type="T32i64u64", mode="random", slots=100, cap=100, max_slots=150, keys=keys(300, -150), histories=100, length=1500, checkpoint=10, fill=fill),
+            S("tree", type="T32i64u64", mode="random", slots=100, cap=100, max_slots=150, keys=keys(300, -150), histories=100, length=1500, checkpoint=10, fill=fill, fresh_base=100000),
             S("tree", type="T32u32u16", mode="random", slots=30, cap=30, max_slots=60, keys=keys(70), histories=1500, length=300, fill=fill),
         ]
     return t
@@ -93,7 +93,7 @@ def edge_tree_scopes(tier):
         S("tree", type="T32i64u64", mode="bfs", slots=2, cap=2, keys=I64, updates=1),
         S("tree", type="T8u8u8", mode="bfs", slots=2, cap=0, keys="0,1,255", updates=0),
         S("tree", type="T8u32u16", mode="random", slots=255, cap=255, keys=keys(300), histories=6, length=2500, checkpoint=50),
-        S("tree", type="T8u8u8", mode="random", slots=255, cap=255, keys=keys(256), histories=6, length=2500, checkpoint=50, fresh_base=0),
+        S("tree", type="T8u8u8", mode="random", slots=255, cap=255, keys=keys(256), histories=6, length=2500, checkpoint=50, fill=0),
     ]
     if tier == "thorough":
         q += [
@@ -133,8 +133,8 @@ def hset_scopes(tier, fill=1, rnd=True):
     if rnd:
         t += [
             S("hset", type="HU64", mode="random", slots=1000, cap=1000, vals=keys(2500), histories=6, length=20000, checkpoint=500, fill=0),
-            S("hset", type="HU32", mode="random", slots=100, cap=100, vals=keys(250), histories=200, length=1500, checkpoint=10, fill=fill),
-            S("hset", type="HWeak", mode="random", slots=40, cap=40, vals=keys(100), histories=1000, length=400, fill=fill),
+            S("hset", type="HU32", mode="random", slots=100, cap=100, vals=keys(250), histories=200, length=1500, checkpoint=10, fill=fill, fresh_base=100000),
+            S("hset", type="HWeak", mode="random", slots=40, cap=40, vals=keys(100), histories=1000, length=400, fill=fill, fresh_base=100000),
         ]
     return t
 
@@ -155,7 +155,7 @@ def aset_scopes(tier, fill=1, rnd=True, logs=True):
         ]
     if rnd:
         q += [
-            S("aset", type="A32u16", mode="random", slots=40, max_slots=60, vals=keys(100, 1), histories=100, length=400, fill=fill),
+            S("aset", type="A32u16", mode="random", slots=40, max_slots=60, vals=keys(100, 1), histories=100, length=400, fill=fill, fresh_base=1000),
             S("aset", type="A32keyed", mode="random", slots=30, vals=keys(70, 1), updates=1, histories=100, length=400, fill=fill),
         ]
     if tier == "quick":
@@ -292,6 +292,13 @@ PROPERTIES = {
         "scopes": lambda tier: tree_scopes(tier, logs=False) + hset_scopes(tier) + aset_scopes(tier, logs=False),
         "relevant": rel_C04,
         "assumptions": COMMON_ASSUME + ["addresses are not part of the model: relocation independence is checked on the implementation (every transition is executed twice, at two addresses), not proved"],
+    },
+    "C05": {
+        "scopes": lambda tier: aset_scopes(tier) + tree_scopes(tier, logs=False, rnd=False)[:6] + hset_scopes(tier, rnd=False)[:3],
+        "relevant": rel_none,
+        "assumptions": COMMON_ASSUME + ["memory safety of safe Rust and of bytemuck's checked casts is trusted; guard regions and Miri support the search, they are not the proof"],
+        "rule": "implementation transitions, each executed twice between 64-byte guard regions of two different patterns at two different addresses; non-trivial = distinct byte states with >= 2 members and a free slot",
+        "trusted": ["tools/extract_facts.py (translation of the ptr::copy argument expressions of array_set.rs into Lean)"],
     },
     "C06": {
         "scopes": lambda tier: tree_scopes(tier, updates=0, fill=0) + [x for x in aset_scopes(tier, fill=0) if "log" in x["args"]["type"]],
